@@ -59,6 +59,23 @@ def fallback(rng, n):
             'schedule': gen.noise_schedule(rng, max_us=200), 'extra': {'timeout_ms': 15000}}
 
 
+def fallback_loop_last(rng, n_items, ok):
+    """the same with a LOOP step as the last one to finish (its items succeed or one fails): nothing happens after its
+    completion, so the check made at that completion has to find the dead end"""
+    import check_c13
+    it = check_c13.loop_item(rng, n_items, 2, ['success'] * n_items if ok else ['success'] * (n_items - 1) + ['error'], delays=[20] * n_items)
+    it['wf']['steps']['pre'] = {'kind': 'plugin', 'pstep': 'work', 'src': 'pre', 'fields': {'input': tmap({'id': lit('pre')})}}
+    it['wf']['outputs'] = {'failure': tmap({'why': ref('steps.pre.crashed.error'), 'deploy': ref('steps.pre.deploy_failed.error')})}
+    it['script']['pre'] = {'exec': {'out': 'success', 'delay_ms': 0}}
+    it['oc']['pre'] = okoc()
+    it['want'] = ['error']
+    it['nomeaning'] = True
+    it.pop('expect_items', None)
+    it['extra'] = {'timeout_ms': 15000}
+    it['at'] = 'fallback, loop finishes last (%s)' % ('all items well' if ok else 'one item fails')
+    return it
+
+
 def late_waiter(rng, deploy_ms):
     """the last event of the run is a plain stage change into a waiting stage: `work` succeeds at once, `waiter` deploys
     slowly and then waits for work's crashed.error, which can no longer come; only a deadlock check made after THAT
@@ -124,6 +141,8 @@ def extra(ctx):
         for ms in ([150] if ctx.quick else [30, 80, 150, 400]):
             items.append(late_waiter(rng, ms))
         items.append(late_waiter_gated(rng))
+        items.append(fallback_loop_last(rng, 2, True))
+        items.append(fallback_loop_last(rng, 3, False))
         for n in ([40] if ctx.quick else [21, 30, 40, 80]):
             items.append(fallback_burst(rng, n))
             items.append(evalfail_burst(rng, max(24, n * 3 // 4)))
